@@ -25,13 +25,14 @@ RULE = ("level 1.1 and 1.5 products (2 images) on local paths / file:// URLs; br
 ASSUMPTIONS = ["the CLI op is the only one allowed to add a file to the product directory, exactly <image>.index",
                "deletes are the harness's own and are excluded from the write monitor",
                "fresh-process references use an empty private cache directory and use_cache=False"]
-REQUIRED_OBS = ["steps", "trees_compared", "snapshots_compared", "audit_events_seen", "states_reached", "scripted_sequences"]
+REQUIRED_OBS = ["steps", "trees_compared", "snapshots_compared", "audit_events_seen", "states_reached", "scripted_sequences",
+                "unwritable_cache_opens"]
 CASE_TIMEOUT = 900
 
 RPCS = [1, 3, 6]
 OPS = [("open", uc, cc, r) for uc in (True, False) for cc in (True, False) for r in RPCS] + \
       [("cli", None, None, None), ("del-user", None, None, None), ("del-adj", None, None, None), ("wipe-user-dir", None, None, None),
-       ("wipe-cache-root", None, None, None), ("cli-sub", None, None, None)]
+       ("wipe-cache-root", None, None, None), ("tear-user", None, None, None), ("tear-adj", None, None, None), ("cli-sub", None, None, None)]
 _O = lambda uc, cc, r: ("open", uc, cc, r)  # noqa: E731
 _X = lambda k: (k, None, None, None)  # noqa: E731
 SCRIPTS = [
@@ -40,6 +41,9 @@ SCRIPTS = [
     [_X("cli"), _O(True, False, 3), _X("del-adj"), _O(True, False, 3), _X("cli"), _O(True, False, 6)],
     [_O(True, True, 6), _O(True, False, 1), _X("del-user"), _O(True, True, 1), _O(True, False, 3)],
     [_X("cli"), _O(True, True, 1), _X("wipe-user-dir"), _O(True, False, 3), _X("del-adj"), _O(True, True, 6), _O(True, False, 6)],
+    [_O(False, True, 3), _X("tear-user"), _O(True, False, 3), _O(True, False, 1), _O(True, True, 1), _O(True, False, 6)],
+    [_X("cli"), _X("tear-adj"), _O(True, False, 1), _O(True, False, 3), _X("cli"), _O(True, False, 3)],
+    [_X("cli"), _O(False, True, 1), _X("tear-adj"), _X("tear-user"), _O(True, False, 6), _X("del-user"), _O(True, False, 6)],
 ]
 NRAND = {"quick": 48, "thorough": 1500}
 LEN = {"quick": 8, "thorough": 30}
@@ -55,6 +59,8 @@ def _plan(tier):
     for level in ("1.5", "1.1"):
         for k in range(len(SCRIPTS)):
             cases.append(("script", level, k))
+    for level in ("1.5", "1.1"):
+        cases.append(("unwritable-cache", level, 0))
     return cases
 
 
@@ -112,6 +118,70 @@ def _defaults():
     return out
 
 
+_UNWRITABLE = r'''
+import json, os, sys
+sys.path.insert(0, {verif!r})
+from vf import env
+blocker = {blocker!r}
+open(blocker, "w").write("not a directory")
+os.environ["XDG_CACHE_HOME"] = os.path.join(blocker, "cache")   # env.bootstrap would mkdir it: set it by hand instead
+sys.dont_write_bytecode = True
+sys.path.insert(0, env.REPO)
+for d in (os.path.join(env.VERIF, ".deps"),):
+    if os.path.isdir(d): sys.path.insert(0, d)
+import warnings; warnings.filterwarnings("ignore")
+from vf import canon, cachelib
+import ceos_alos2
+out = []
+for opts in ({{"create_cache": True, "use_cache": False, "records_per_chunk": 3}}, {{"create_cache": True, "records_per_chunk": 1}}, {{"records_per_chunk": 3}}):
+    before = cachelib.snapshot({root!r})
+    try:
+        t = ceos_alos2.open_alos2({url!r}, backend_options=dict(opts))
+        r = {{"ok": canon.canon(t)}}
+    except BaseException as e:
+        r = {{"error": type(e).__name__, "oserror": isinstance(e, OSError), "text": str(e)[:200]}}
+    r["product_dir_changes"] = cachelib.snapshot_diff(before, cachelib.snapshot({root!r}))
+    r["opts"] = opts
+    out.append(r)
+json.dump(out, sys.stdout)
+'''
+
+
+def _unwritable_cache_case(W, obs, violations):
+    """create_cache=True while the user cache location cannot be created: whatever the open does (raise or go on), it must not
+    write into the product directory; an open that was not asked to write must still return the right tree"""
+    import json
+    import subprocess
+
+    W.reset()
+    blocker = os.path.join(env.scratch(), f"blocker-{os.getpid()}")
+    e = dict(os.environ)
+    e.pop("XDG_CACHE_HOME", None)
+    e["PYTHONDONTWRITEBYTECODE"] = "1"
+    p = subprocess.run([env.PY, "-c", _UNWRITABLE.format(verif=env.VERIF, blocker=blocker, root=W.root, url=W.url)],
+                       capture_output=True, text=True, timeout=300, env=e, cwd=env.VERIF)
+    try:
+        os.remove(blocker)
+    except OSError:
+        pass
+    if p.returncode != 0:
+        raise RuntimeError(f"unwritable-cache child failed: {p.stderr[-600:]}")
+    for r in json.loads(p.stdout):
+        obs["steps"] += 1
+        obs["unwritable_cache_opens"] = obs.get("unwritable_cache_opens", 0) + 1
+        detail = {"options": r["opts"], "user_cache_location": "below a regular file"}
+        if r["product_dir_changes"]:
+            violations.append({"what": f"open with {r['opts']} and an unwritable user cache location modified the product directory: {r['product_dir_changes']}", "detail": detail})
+        if "ok" in r:
+            obs["trees_compared"] += 1
+            d = canon.diff(W.ref[r["opts"]["records_per_chunk"]], r["ok"])
+            if d:
+                violations.append({"what": f"open with {r['opts']} (unwritable cache location) differs from the reference at {len(d)} leaves, first {d[0]}", "detail": detail})
+        elif not r["opts"].get("create_cache"):
+            violations.append({"what": f"open without create_cache raised {r['error']}: {r['text']} (unwritable cache location)", "detail": detail})
+    W.reset()
+
+
 def step(W, op, obs, violations, kept, tier):
     import ceos_alos2
 
@@ -129,6 +199,15 @@ def step(W, op, obs, violations, kept, tier):
         for p in (W.user if kind == "del-user" else W.adj):
             if os.path.exists(p):
                 os.remove(p)
+        return f"{kind}|{before_state}"
+    if kind in ("tear-user", "tear-adj"):
+        # an interrupted writer left a prefix of the index (C09's states) in the middle of a history: later opens must still
+        # write nothing they were not asked to write
+        for p in (W.user if kind == "tear-user" else W.adj):
+            if os.path.exists(p):
+                b = open(p, "rb").read()
+                with open(p, "wb") as f:
+                    f.write(b[: len(b) // 2])
         return f"{kind}|{before_state}"
     if kind in ("wipe-user-dir", "wipe-cache-root"):
         # a user (or a cleaner) removes the product's cache directory / the whole cache root, not just the index files
@@ -230,6 +309,9 @@ def run_case(i, tier, seed):
                     states.add(W.state())
             sample = {"kind": "all two-step sequences starting with", "first_op": list(OPS[k]), "level": level, "url": W.url,
                       "cache_states_reached": sorted(states)}
+        elif kind == "unwritable-cache":
+            _unwritable_cache_case(W, obs, violations)
+            sample = {"kind": "fresh process whose user cache location cannot be created (a path component is a regular file)", "level": level}
         elif kind == "script":
             W.reset()
             for op in SCRIPTS[k]:
